@@ -12,7 +12,7 @@ LEVEL_TEXT = (
     'gated by their option, (H3) nested equals calls compare like components and forward every option, '
     '(H4) the identity shortcut, (H5) __eq__/__ne__/__hash__ of SeriesHE/FrameHE. If every test and the mask '
     'are symmetric terms and the element comparison is symmetric, equals is symmetric; a violated obligation '
-    'is a concrete asymmetric construct. Sibling defaults: a parameter taken by the same-named method of several container classes has the same default in each (confirmed exceptions listed in sfa/rules/forwardrules.py). Finite case analysis over the dtype kinds: in TypeBlocks / Series / Index equals, with skipna requested and for every kind that can hold a missing value, no answer is returned after the elementwise comparison before the missing masks were consulted. Slice cardinality: every `<slice>.indices(n)` result in core is consumed whole or any stop - start span is computed with the step (single-row detection, assigned widths and fill limits count stepped slices correctly). Not decided: transitivity, NaN/None/NaT element semantics, symmetry '
+    'is a concrete asymmetric construct. Sibling defaults: a parameter taken by the same-named method of several container classes has the same default in each (confirmed exceptions listed in sfa/rules/forwardrules.py). Finite case analysis over the dtype kinds: in TypeBlocks / Series / Index equals, with skipna requested and for every kind that can hold a missing value, no answer is returned after the elementwise comparison before the missing masks were consulted. Slice cardinality: every `<slice>.indices(n)` result in core is consumed whole or any stop - start span is computed with the step (single-row detection, assigned widths and fill limits count stepped slices correctly). Identity shortcut: every equals(..., skipna=...) takes its `other is self` shortcut only when skipna holds (with skipna=False a container holding NaN equals neither its copy nor itself). Not decided: transitivity, NaN/None/NaT element semantics, symmetry '
     'of == on user objects.')
 
 
@@ -28,4 +28,5 @@ def run(ctx: Ctx) -> None:
     symm.h_he(ctx)
     forwardrules.sibling_defaults(ctx, prefixes=('equals', '__eq__'), suffix='equals', floor=3)
     narules.nullable_kinds(ctx)
+    narules.identity_shortcut_skipna(ctx)
     blockrules.slice_cardinality(ctx)
